@@ -210,7 +210,7 @@ def run(ctx):
         "next instant is not reached, else the attempt is discarded and repeated with the next delta (never a verdict); exact firing times are not judged",
         "Deadline() of a WithTimeout context is judged against [now_before_call + timeout, now_after_call + timeout]; a tie between contexts asking for the same instant "
         "is accepted either way",
-        "concurrent stage: schedules are sampled by the Go scheduler (3 / 12 rounds per case), not enumerated; exhaustiveness over interleavings holds for the TLA+ models only; "
+        "concurrent stage: schedules are sampled by the Go scheduler (3 / 6 rounds per case), not enumerated; exhaustiveness over interleavings holds for the TLA+ models only; "
         "the interleavings of CtxTreePre17 are not replayed on the code",
         "keys are values of one named string type; values are strings; custom Context implementations as parents (the goroutine path of propagateCancel) are not covered",
     ]
@@ -218,7 +218,10 @@ def run(ctx):
     # ---- MC: the contract
     cov = not quick
     for fam in ("cancel", "time", "value"):
-        ctx.tlc("context", "CtxTree", "MC_CtxTree_%s.%s.cfg" % (fam, t), coverage=cov, timeout=900)
+        ctx.tlc("context", "CtxTree", "MC_CtxTree_%s.%s.cfg" % (fam, t), coverage=cov and fam != "time", timeout=900)
+    if not quick:
+        # the small time family once more with per-action coverage (the large one runs without): every action taken
+        ctx.tlc("context", "CtxTree", "MC_CtxTree_time.quick.cfg", name="CtxTree.MC_CtxTree_time.coverage", coverage=True, count_states=False)
     # non-vacuity: each named deviation breaks the invariant that states its clause
     ctx.tlc("context", "CtxTree", "MC_CtxTree_dev_nograndchildren.cfg", expect_violation="DownwardClosed", count_states=False, workers=1)
     ctx.tlc("context", "CtxTree", "MC_CtxTree_dev_overwrite.cfg", expect_violation="FirstCauseWins", count_states=False, workers=1)
@@ -227,7 +230,9 @@ def run(ctx):
 
     # ---- MC: the hand written tree at lock level, all interleavings
     ctx.tlc("context", "CtxTreePre17", "MC_CtxTreePre17_cancel.%s.cfg" % t, coverage=cov, timeout=900)
-    ctx.tlc("context", "CtxTreePre17", "MC_CtxTreePre17_timer.%s.cfg" % t, coverage=cov, timeout=900)
+    ctx.tlc("context", "CtxTreePre17", "MC_CtxTreePre17_timer.%s.cfg" % t, timeout=900)
+    if not quick:
+        ctx.tlc("context", "CtxTreePre17", "MC_CtxTreePre17_timer.quick.cfg", name="CtxTreePre17.MC_CtxTreePre17_timer.coverage", coverage=True, count_states=False)
     ctx.tlc("context", "CtxTreePre17", "MC_CtxTreePre17_dev_norecheck.cfg", expect_violation="ClosedOnce", count_states=False, workers=1)
     if not quick:
         ctx.tlc("context", "CtxTreePre17", "MC_CtxTreePre17_dev_unlockearly.cfg", expect_violation="LockedPropagation", count_states=False, workers=1)
